@@ -119,7 +119,7 @@ PROPERTIES = {
                  "add_event in the past under catch_unwind on marked events, the clock writer is observed through hook H4 and the event set is walked "
                  "through H6; every third program is additionally driven in random n-event / until-time steps, and after every step add_event(sim_time() - 1 ns) "
                  "is attempted on the paused runtime (half of these stepped runs also add events from outside while paused, at / after the reported time). Oracle: now == scheduled, non-decreasing, each event exactly once, every add at/after now accepted, every "
-                 "add before now / before the start time / before the time reported while paused rejected and never dispatched, end time = last event. The same driver also runs against des built without the cqueue feature (BinaryHeap event set; stage heap-backend, both tiers). Non-trivial = program with >= 3 events that ran clean; "
+                 "add before now / before the start time / before the time reported while paused rejected and never dispatched, end time = last event. Every 20 programs a net-level probe injects messages at absolute timestamps through Runtime<Sim>::add_message_onto / handle_message_on - before the run with start time 0 / 5 s / 10^6 s, and on a runtime paused by an until-step: each is handled at exactly its timestamp, an injection below the current time is rejected. The same driver also runs against des built without the cqueue feature (BinaryHeap event set; stage heap-backend, both tiers). Non-trivial = program with >= 3 events that ran clean; "
                  "distinct = hash of the program."),
         "assumptions": ["the handlers of the monitor application are the observation boundary; H4 observes every SimTime::set_now",
                         "start times are restricted to those the calendar queue can reach by scanning <= 1e6 buckets from zero (a larger start time "
@@ -133,10 +133,10 @@ PROPERTIES = {
             "quick": {"events_handled": 1000000, "past_adds_rejected_in_handlers": 20000, "programs_with_nonzero_start": 50000,
                       "pre_run_adds_before_start_rejected": 50000, "clock_writes_observed": 1000000, "event_set_walks": 100000,
                       "stepped_runs": 20000, "paused_adds_below_reported_time_rejected": 50000,
-                      "programs_starting_beyond_10_7_seconds": 2000, "heap_events_handled": 200000},
+                      "programs_starting_beyond_10_7_seconds": 2000, "heap_events_handled": 200000, "net_injection_probes": 4000},
             "thorough": {"events_handled": 50000000, "past_adds_rejected_in_handlers": 1000000, "programs_with_nonzero_start": 1000000,
                          "pre_run_adds_before_start_rejected": 1000000, "clock_writes_observed": 50000000, "heap_events_handled": 1000000,
-                         "programs_starting_beyond_10_7_seconds": 30000},
+                         "programs_starting_beyond_10_7_seconds": 30000, "net_injection_probes": 80000},
         },
     },
     "C10": {
